@@ -632,7 +632,7 @@ func (w *World) CheckCleanFailure(out *Outcome, o *Obs) []Violation {
 	}
 	for _, t := range w.P.Types {
 		for _, cf := range t.Config {
-			if cf.Validate != "" || cf.Menu == "sum" || cf.Menu == "mul" || cf.Menu == "nested" {
+			if cf.Validate != "" || cf.Menu == "sum" || cf.Menu == "mul" || cf.Menu == "nested" || cf.Menu == "sumDef" {
 				cfgBad = "open" // validation / expression outcomes are C18's business
 			}
 		}
